@@ -42,8 +42,13 @@ def make_case(seed_tuple, eidx, tier, stratum=None):
     if E.max_bs:
         bs = min(bs, E.max_bs)
     seed = int(rng.integers(0, 1000))
+    # representation of the inputs (the result may only depend on the values): memory layout of X / the candidate rows
+    # (0 = C order, 1 = Fortran order, 2 = transposed view, 3 = strided view of a wider array, 4 = nested Python lists), and
+    # sample weights (none / all ones / positive / some zeros) for the strategies that accept them
+    rep = 0 if stratum is None else [0, 0, 1, 3, 4, 2][(stratum // 25 + stratum) % 6]
+    swm = "none" if stratum is None else ["none", "none", "ones", "random", "zeros"][(stratum // 3) % 5]
     return {"eidx": eidx, "name": E.name, "X": X, "y": y, "classes": classes, "labeling": labeling,
-            "cmode": mode, "cand": cand, "bs": bs, "seed": seed, "ncand": ncand, "y_true": y_true}
+            "cmode": mode, "cand": cand, "bs": bs, "seed": seed, "ncand": ncand, "y_true": y_true, "rep": rep, "sw": swm}
 
 
 def _run_case(case):
@@ -51,12 +56,43 @@ def _run_case(case):
     warnings.simplefilter("ignore")
     E = _entries()[case["eidx"]]
     out = {"status": "ok"}
-    X, y, cand = case["X"].copy(), case["y"].copy(), (None if case["cand"] is None else np.array(case["cand"]).copy())
+    from .core import relayout
+
+    def inputs():
+        X, y = case["X"].copy(), case["y"].copy()
+        cand = None if case["cand"] is None else np.array(case["cand"]).copy()
+        rep = case.get("rep", 0)
+        if rep == 4:
+            X = X.tolist()
+            y = y.tolist()
+            if cand is not None:
+                cand = cand.tolist()
+        elif rep:
+            X = relayout(X, rep)
+            if cand is not None and cand.ndim == 2:
+                cand = relayout(cand, rep)
+        extra = {}
+        swm = case.get("sw", "none")
+        if swm != "none" and case["cmode"] != "feat":       # documented: weights need a mapping between candidates and X
+            import inspect
+            models = [m for v in E.kw(case["classes"], case["seed"]).values() for m in (v if isinstance(v, (list, tuple)) else [v]) if hasattr(m, "fit")]
+            # documented: a wrapped estimator whose fit does not take sample_weight makes the wrapper reject weights
+            ok = all("sample_weight" in inspect.signature(m.fit).parameters for m in models)
+            if ok and "sample_weight" in inspect.signature(E.make(case["classes"], case["seed"]).query).parameters:
+                r = np.random.default_rng([case["seed"], 77])
+                n = len(case["y"])
+                w = np.ones(n) if swm == "ones" else r.integers(1, 6, size=n).astype(float)
+                if swm == "zeros":          # zero weights on UNLABELED samples only (they are irrelevant for supervised models, C12);
+                    unl_ = np.isnan(case["y"])      # zero weights on labeled samples are the wrapped estimator's own business
+                    w[unl_ & (r.random(n) < 0.6)] = 0.0
+                extra["sample_weight"] = w
+        return X, y, cand, extra
 
     def go():
-        (idx, ut), _ = R.run_query(E, X, y, case["classes"], case["seed"], cand, case["bs"], True)
-        idx2, _ = R.run_query(E, case["X"].copy(), case["y"].copy(), case["classes"], case["seed"],
-                              (None if case["cand"] is None else np.array(case["cand"]).copy()), case["bs"], False)
+        X, y, cand, extra = inputs()
+        (idx, ut), _ = R.run_query(E, X, y, case["classes"], case["seed"], cand, case["bs"], True, **extra)
+        X, y, cand, extra = inputs()
+        idx2, _ = R.run_query(E, X, y, case["classes"], case["seed"], cand, case["bs"], False, **extra)
         return idx, ut, idx2
     try:
         idx, ut, idx2 = with_timeout(go, 20 if not E.slow else 60)
@@ -201,7 +237,7 @@ def case_replay(case, out=None):
     r = {"strategy": case["name"], "X": case["X"].tolist(), "y": [None if np.isnan(v) else float(v) for v in case["y"]],
          "classes": case["classes"], "candidates_mode": case["cmode"],
          "candidates": None if case["cand"] is None else np.asarray(case["cand"]).tolist(),
-         "batch_size": case["bs"], "seed": case["seed"]}
+         "batch_size": case["bs"], "seed": case["seed"], "input_representation": case.get("rep", 0), "sample_weight_mode": case.get("sw", "none")}
     if out is not None and out.get("status") == "ok":
         r["returned_indices"] = np.asarray(out["idx"]).tolist()
     return r
@@ -213,5 +249,6 @@ def replay_case(rc):
     case = {"eidx": _entries().index(E) if False else [e.name for e in _entries()].index(rc["strategy"]), "name": rc["strategy"],
             "X": np.array(rc["X"], dtype=float), "y": np.array([np.nan if v is None else v for v in rc["y"]], dtype=float),
             "classes": rc["classes"], "cmode": rc["candidates_mode"],
-            "cand": None if rc["candidates"] is None else np.array(rc["candidates"]), "bs": rc["batch_size"], "seed": rc["seed"]}
+            "cand": None if rc["candidates"] is None else np.array(rc["candidates"]), "bs": rc["batch_size"], "seed": rc["seed"],
+            "rep": rc.get("input_representation", 0), "sw": rc.get("sample_weight_mode", "none")}
     return case, _run_case(case)
